@@ -440,3 +440,7 @@ def case_scenario(r, obs):
 
 
 RULE += (" Star imports are repeated with jinja2 hidden; advertised names bound to a same-named submodule are flagged; scenarios include partially resolvable static contexts for Write and Cache; the repository's tests run under the RAISE monitor.")
+RULE += (' Added: long sessions - string-taking entry points (format_context, format_update_with, '
+         'get_recursively, str_to_dict, UpdateContext, SetContext alone and in a Sequence, '
+         'MakeFilename, Variable) called thousands of times with a distinct string each time in '
+         'one interpreter.')
